@@ -342,7 +342,9 @@ theorem pres_tupStep {ev : XExpr → XM XLoc} (hev : ∀ e, Pres (ev e)) : ∀ a
     refine Pres.bind (hev a) (fun x => Pres.bind (pres_xget x) (fun c => ?_))
     split
     · exact Pres.fail _
-    · exact Pres.bind (pres_takeArg x) (fun v => pres_tupStep hev as _)
+    · split
+      · exact Pres.fail _
+      · exact Pres.bind (pres_takeArg x) (fun v => pres_tupStep hev as _)
 
 theorem pres_bindArgs {ev : XExpr → XM XLoc} (hev : ∀ e, Pres (ev e)) : ∀ as k callee, Pres (bindArgs ev as k callee)
   | [], k, callee => by simp only [bindArgs]; exact Pres.pure _
@@ -546,5 +548,335 @@ theorem rootFrom_recvCell (r : XExpr) (xr : XLoc) : RootFrom (fun ρ => ρ = xr.
   split
   · exact RootFrom.mono (fun _ h => Or.inr h) (rootFrom_xalloc _)
   · exact RootFrom.pure _ (Or.inl rfl)
+
+end BlocV.LemmasX
+
+namespace BlocV.LemmasX
+open BlocV
+
+/-! ### the static footprint: which non-temporary roots an evaluation can log -/
+
+/-- the root an in-place member with receiver expression `r` can write: the variable a storage expression is rooted at,
+or the constant node when the receiver is a literal (only reachable for literal types whose `isConst` path does not
+allocate; the value level raises for all of them, the footprint does not rely on that). -/
+def recvRoot (r : XExpr) : List Loc :=
+  match r with
+  | .cst j => [.cst j]
+  | _ => if r.isStorage then (match rootVarX r with | some i => [.var i] | none => []) else []
+
+def stmtExprs : List XStmt → List (Option Nat × XExpr)
+  | [] => []
+  | .assign i e :: rest => (some i, e) :: stmtExprs rest
+  | .doE e :: rest => (none, e) :: stmtExprs rest
+  | .ret e :: rest => (none, e) :: stmtExprs rest
+
+/-- **Static footprint** of an expression: every variable slot / constant node its evaluation may write in place,
+computed from the text (and, for calls, from the texts of the called functions: constant nodes only — a callee's
+variables are its own). Same fuel discipline as `evalX`. -/
+def fpE (F : List XFun) : Nat → XExpr → List Loc
+  | 0, _ => []
+  | fuel + 1, e =>
+    match e with
+    | .cst _ => []
+    | .var _ => []
+    | .tab0 => []
+    | .un _ a => fpE F fuel a
+    | .bin _ a b => fpE F fuel a ++ fpE F fuel b
+    | .mem m r args =>
+      (match m with | .count => [] | .at => [] | _ => recvRoot r) ++ fpE F fuel r ++ (args.map (fpE F fuel)).flatten
+    | .item r _ => fpE F fuel r
+    | .setItem r _ a => recvRoot r ++ fpE F fuel r ++ fpE F fuel a
+    | .tab n a => fpE F fuel n ++ fpE F fuel a
+    | .tup args => (args.map (fpE F fuel)).flatten
+    | .call f args =>
+      (args.map (fpE F fuel)).flatten ++
+        (match F[f]? with
+         | some fn => (((stmtExprs fn.body).map (fun p => fpE F fuel p.2)).flatten).filter Loc.isCst
+         | none => [])
+
+/-- a computation logs only roots of `A` -/
+def Logs {α} (A : List Loc) (m : XM α) : Prop :=
+  ∀ s a s', FlagInv s.st → m s = .ok (a, s') → ∃ l, s'.log = l ++ s.log ∧ ∀ ρ ∈ l, ρ ∈ A
+
+theorem Logs.mono {α} {A B : List Loc} {m : XM α} (h : ∀ ρ ∈ A, ρ ∈ B) (hm : Logs A m) : Logs B m := by
+  intro s a s' hi hs
+  obtain ⟨l, e, hl⟩ := hm s a s' hi hs
+  exact ⟨l, e, fun ρ hρ => h ρ (hl ρ hρ)⟩
+
+theorem Logs.silent {α} {A : List Loc} {m : XM α} (h : ∀ s a s', m s = .ok (a, s') → s'.log = s.log) : Logs A m := by
+  intro s a s' _ hs
+  exact ⟨[], by simp [h s a s' hs], fun _ hρ => by cases hρ⟩
+
+theorem Logs.bind {α β} {A : List Loc} {m : XM α} {f : α → XM β} (hm : Logs A m) (hp : Pres m)
+    (hf : ∀ s a s1, m s = .ok (a, s1) → Logs A (f a)) : Logs A (XM.bind m f) := by
+  intro s b s' hi h
+  simp only [XM.bind] at h
+  cases hms : m s with
+  | ok p =>
+    obtain ⟨a, s1⟩ := p
+    rw [hms] at h
+    obtain ⟨l1, e1, h1⟩ := hm s a s1 hi hms
+    obtain ⟨l2, e2, h2⟩ := hf s a s1 hms s1 b s' ((hp s a s1 hi hms).flagInv hi) h
+    refine ⟨l2 ++ l1, by rw [e2, e1, List.append_assoc], ?_⟩
+    intro ρ hρ
+    rcases List.mem_append.mp hρ with h' | h'
+    · exact h2 ρ h'
+    · exact h1 ρ h'
+  | err c x => rw [hms] at h; cases h
+  | haz x => rw [hms] at h; cases h
+  | unmodelled => rw [hms] at h; cases h
+
+theorem Logs.bind' {α β} {A : List Loc} {m : XM α} {f : α → XM β} (hm : Logs A m) (hp : Pres m)
+    (hf : ∀ a, Logs A (f a)) : Logs A (XM.bind m f) := Logs.bind hm hp (fun _ a _ _ => hf a)
+
+theorem Logs.ite {α} {A : List Loc} {c : Prop} [Decidable c] {m1 m2 : XM α} (h1 : Logs A m1) (h2 : Logs A m2) :
+    Logs A (if c then m1 else m2) := by split <;> assumption
+
+theorem silent_pure {α} (a : α) : ∀ s b s', (XM.pure a : XM α) s = .ok (b, s') → s'.log = s.log := by
+  intro s b s' h; simp only [XM.pure] at h; cases h; rfl
+theorem silent_lift {α} (r : Res α) : ∀ s b s', XM.lift r s = .ok (b, s') → s'.log = s.log := by
+  intro s b s' h; cases r <;> simp only [XM.lift] at h <;> cases h; rfl
+theorem silent_fail {α} (r : Res Unit) : ∀ s b s', (XM.fail r : XM α) s = .ok (b, s') → s'.log = s.log := by
+  intro s b s' h; cases r <;> simp only [XM.fail] at h <;> cases h
+theorem silent_xget (x : XLoc) : ∀ s b s', xget x s = .ok (b, s') → s'.log = s.log := by
+  intro s b s' h; simp only [xget] at h; split at h <;> cases h; rfl
+theorem silent_logLen : ∀ s b s', logLen s = .ok (b, s') → s'.log = s.log := by
+  intro s b s' h; simp only [logLen] at h; cases h; rfl
+theorem silent_checkHeld (x : XLoc) (n : Nat) : ∀ s b s', checkHeld x n s = .ok (b, s') → s'.log = s.log := by
+  intro s b s' h; simp only [checkHeld] at h; split at h <;> cases h; rfl
+theorem silent_xendStatement : ∀ s b s', xendStatement s = .ok (b, s') → s'.log = s.log := by
+  intro s b s' h; simp only [xendStatement] at h; cases h; rfl
+theorem silent_xalloc (v : Val) : ∀ s b s', xalloc v s = .ok (b, s') → s'.log = s.log := by
+  intro s b s' h; simp only [xalloc] at h; cases h; rfl
+theorem silent_xlval1 (v : Val) (a : XLoc) : ∀ s b s', xlval1 v a s = .ok (b, s') → s'.log = s.log := by
+  intro s b s' h
+  simp only [xlval1] at h
+  split at h
+  · split at h
+    · exact silent_xalloc v s b s' h
+    · split at h <;> cases h; rfl
+  · cases h
+theorem silent_xlval2 (v : Val) (a c : XLoc) : ∀ s b s', xlval2 v a c s = .ok (b, s') → s'.log = s.log := by
+  intro s b s' h
+  simp only [xlval2] at h
+  split at h
+  · split at h
+    · exact silent_xlval1 v c s b s' h
+    · split at h <;> cases h; rfl
+  · cases h
+theorem silent_xplace (p : Place) (v : Val) (x1 x2 : XLoc) : ∀ s b s', xplace p v x1 x2 s = .ok (b, s') → s'.log = s.log := by
+  cases p <;> simp only [xplace]
+  · exact silent_pure _
+  · exact silent_pure _
+  · exact silent_xlval1 _ _
+  · exact silent_xlval2 _ _ _
+theorem silent_takeArg (x : XLoc) : ∀ s b s', takeArg x s = .ok (b, s') → s'.log = s.log := by
+  intro s b s' h
+  simp only [takeArg] at h
+  split at h
+  · split at h
+    · cases h; rfl
+    · split at h <;> cases h; rfl
+  · cases h
+theorem silent_atResult (x : XLoc) (recv a0 res : Val) : ∀ s b s', atResult x recv a0 res s = .ok (b, s') → s'.log = s.log := by
+  unfold atResult
+  split
+  · exact silent_pure _
+  · exact silent_xalloc _
+theorem silent_recvCell (r : XExpr) (x : XLoc) : ∀ s b s', recvCell r x s = .ok (b, s') → s'.log = s.log := by
+  intro s b s' h
+  simp only [recvCell, XM.bind] at h
+  cases hg : xget x s with
+  | ok p =>
+    obtain ⟨c, s1⟩ := p
+    rw [hg] at h
+    have e1 := silent_xget x s c s1 hg
+    simp only at h
+    split at h
+    · rw [← e1]; exact silent_xalloc _ s1 b s' h
+    · rw [← e1]; exact silent_pure _ s1 b s' h
+  | err c y => rw [hg] at h; cases h
+  | haz y => rw [hg] at h; cases h
+  | unmodelled => rw [hg] at h; cases h
+
+theorem logs_wrRecv {A : List Loc} (x : XLoc) (v : Val) (hx : NonTmp x.root → x.root ∈ A) : Logs A (wrRecv x v) := by
+  intro s a s' _ h
+  simp only [wrRecv] at h
+  split at h
+  · cases h
+    cases hr : x.root with
+    | tmp i => exact ⟨[], rfl, fun _ hρ => by cases hρ⟩
+    | var i => exact ⟨[.var i], rfl, fun ρ hρ => by simp at hρ; rw [hρ, ← hr]; exact hx (by rw [hr]; trivial)⟩
+    | cst i => exact ⟨[.cst i], rfl, fun ρ hρ => by simp at hρ; rw [hρ, ← hr]; exact hx (by rw [hr]; trivial)⟩
+  · cases h
+
+theorem logs_finishInPlace {A : List Loc} (x : XLoc) (old res recv' : Val) (b : Bool) (hx : NonTmp x.root → x.root ∈ A) :
+    Logs A (finishInPlace x old res recv' b) := by
+  unfold finishInPlace
+  split
+  · exact Logs.silent (silent_xalloc _)
+  · exact Logs.bind' (logs_wrRecv x recv' hx) (pres_wrRecv _ _) (fun _ => Logs.silent (silent_pure _))
+
+theorem logs_xsetVar {A : List Loc} (i : Nat) (v : Val) (hi : Loc.var i ∈ A) : Logs A (xsetVar i v) := by
+  intro s a s' _ h
+  simp only [xsetVar] at h
+  split at h
+  · cases h; exact ⟨[.var i], rfl, fun ρ hρ => by simp at hρ; rw [hρ]; exact hi⟩
+  · cases h
+
+end BlocV.LemmasX
+
+namespace BlocV.LemmasX
+open BlocV
+
+/-- `Logs` from one given start state (so that facts about that very state can be used by the continuation) -/
+def LogsAt {α} (s : XS) (A : List Loc) (m : XM α) : Prop :=
+  FlagInv s.st → ∀ a s', m s = .ok (a, s') → ∃ l, s'.log = l ++ s.log ∧ ∀ ρ ∈ l, ρ ∈ A
+
+theorem LogsAt.of {α} {A : List Loc} {m : XM α} (h : Logs A m) (s : XS) : LogsAt s A m := fun hi a s' hs => h s a s' hi hs
+theorem Logs.of_at {α} {A : List Loc} {m : XM α} (h : ∀ s, LogsAt s A m) : Logs A m := fun s a s' hi hs => h s hi a s' hs
+
+theorem LogsAt.mono {α} {s : XS} {A B : List Loc} {m : XM α} (h : ∀ ρ ∈ A, ρ ∈ B) (hm : LogsAt s A m) : LogsAt s B m := by
+  intro hi a s' hs
+  obtain ⟨l, e, hl⟩ := hm hi a s' hs
+  exact ⟨l, e, fun ρ hρ => h ρ (hl ρ hρ)⟩
+
+theorem LogsAt.silent {α} {s : XS} {A : List Loc} {m : XM α} (h : ∀ s a s', m s = .ok (a, s') → s'.log = s.log) : LogsAt s A m :=
+  LogsAt.of (Logs.silent h) s
+
+theorem LogsAt.bind {α β} {s : XS} {A : List Loc} {m : XM α} {f : α → XM β} (hm : LogsAt s A m) (hp : Pres m)
+    (hf : ∀ a s1, FlagInv s.st → m s = .ok (a, s1) → LogsAt s1 A (f a)) : LogsAt s A (XM.bind m f) := by
+  intro hi b s' h
+  simp only [XM.bind] at h
+  cases hms : m s with
+  | ok p =>
+    obtain ⟨a, s1⟩ := p
+    rw [hms] at h
+    obtain ⟨l1, e1, h1⟩ := hm hi a s1 hms
+    obtain ⟨l2, e2, h2⟩ := hf a s1 hi hms ((hp s a s1 hi hms).flagInv hi) b s' h
+    refine ⟨l2 ++ l1, by rw [e2, e1, List.append_assoc], ?_⟩
+    intro ρ hρ
+    rcases List.mem_append.mp hρ with h' | h'
+    · exact h2 ρ h'
+    · exact h1 ρ h'
+  | err c x => rw [hms] at h; cases h
+  | haz x => rw [hms] at h; cases h
+  | unmodelled => rw [hms] at h; cases h
+
+theorem LogsAt.ite {α} {s : XS} {A : List Loc} {c : Prop} [Decidable c] {m1 m2 : XM α} (h1 : LogsAt s A m1) (h2 : LogsAt s A m2) :
+    LogsAt s A (if c then m1 else m2) := by split <;> assumption
+
+theorem logs_tabStep {A : List Loc} {ev : XM XLoc} (hev : Logs A ev) (hp : Pres ev) (t : Ty) : ∀ k acc, Logs A (tabStep ev t k acc)
+  | 0, acc => by simp only [tabStep]; exact Logs.silent (silent_pure _)
+  | k + 1, acc => by
+    simp only [tabStep]
+    refine Logs.bind' hev hp (fun x => Logs.bind' (Logs.silent (silent_xget x)) (pres_xget x) (fun c => ?_))
+    split
+    · exact Logs.silent (silent_fail _)
+    · exact Logs.bind' (Logs.silent (silent_takeArg x)) (pres_takeArg x) (fun v => logs_tabStep hev hp t k _)
+
+theorem logs_tupStep {A : List Loc} {ev : XExpr → XM XLoc} (hp : ∀ e, Pres (ev e)) :
+    ∀ as acc, (∀ a ∈ as, Logs A (ev a)) → Logs A (tupStep ev as acc)
+  | [], acc, _ => by simp only [tupStep]; exact Logs.silent (silent_pure _)
+  | a :: as, acc, hl => by
+    simp only [tupStep]
+    refine Logs.bind' (hl a (List.mem_cons_self ..)) (hp a) (fun x => Logs.bind' (Logs.silent (silent_xget x)) (pres_xget x) (fun c => ?_))
+    split
+    · exact Logs.silent (silent_fail _)
+    · split
+      · exact Logs.silent (silent_fail _)
+      · exact Logs.bind' (Logs.silent (silent_takeArg x)) (pres_takeArg x)
+          (fun v => logs_tupStep hp as _ (fun a' ha' => hl a' (List.mem_cons_of_mem _ ha')))
+
+theorem logs_bindArgs {A : List Loc} {ev : XExpr → XM XLoc} (hp : ∀ e, Pres (ev e)) :
+    ∀ as k callee, (∀ a ∈ as, Logs A (ev a)) → Logs A (bindArgs ev as k callee)
+  | [], k, callee, _ => by simp only [bindArgs]; exact Logs.silent (silent_pure _)
+  | a :: as, k, callee, hl => by
+    simp only [bindArgs]
+    refine Logs.bind' (hl a (List.mem_cons_self ..)) (hp a) (fun x => Logs.bind' (Logs.silent (silent_takeArg x)) (pres_takeArg x) (fun v => ?_))
+    split
+    · exact logs_bindArgs hp as _ _ (fun a' ha' => hl a' (List.mem_cons_of_mem _ ha'))
+    · exact Logs.silent (silent_fail _)
+
+theorem logs_xstoreVar {A : List Loc} (i : Nat) (x : XLoc) (hi : Loc.var i ∈ A) : Logs A (xstoreVar i x) := by
+  unfold xstoreVar
+  split
+  · exact Logs.silent (silent_pure _)
+  · exact Logs.bind' (Logs.silent (silent_takeArg x)) (pres_takeArg x) (fun v => logs_xsetVar i v hi)
+
+/-- footprint of a statement list run in its own context: the expressions' footprints and the assignment targets -/
+def bodyFp (fp : XExpr → List Loc) : List XStmt → List Loc
+  | [] => []
+  | .assign i e :: rest => fp e ++ [.var i] ++ bodyFp fp rest
+  | .doE e :: rest => fp e ++ bodyFp fp rest
+  | .ret e :: rest => fp e ++ bodyFp fp rest
+
+theorem logs_execBody {ev : XExpr → XM XLoc} {fp : XExpr → List Loc} (hp : ∀ e, Pres (ev e)) (hl : ∀ e, Logs (fp e) (ev e)) :
+    ∀ body, Logs (bodyFp fp body) (execBody ev body)
+  | [] => by simp only [execBody]; exact Logs.silent (silent_pure _)
+  | .assign i e :: rest => by
+    simp only [execBody, bodyFp]
+    refine Logs.bind' (Logs.mono (by intro ρ h; simp [h]) (hl e)) (hp e) (fun x => ?_)
+    refine Logs.bind' (logs_xstoreVar i x (by simp)) (pres_xstoreVar i x) (fun _ => ?_)
+    refine Logs.bind' (Logs.silent silent_xendStatement) pres_xendStatement (fun _ => ?_)
+    exact Logs.mono (by intro ρ h; simp [h]) (logs_execBody hp hl rest)
+  | .doE e :: rest => by
+    simp only [execBody, bodyFp]
+    refine Logs.bind' (Logs.mono (by intro ρ h; simp [h]) (hl e)) (hp e) (fun x => ?_)
+    refine Logs.bind' (Logs.silent silent_xendStatement) pres_xendStatement (fun _ => ?_)
+    exact Logs.mono (by intro ρ h; simp [h]) (logs_execBody hp hl rest)
+  | .ret e :: rest => by
+    simp only [execBody, bodyFp]
+    refine Logs.bind' (Logs.mono (by intro ρ h; simp [h]) (hl e)) (hp e) (fun x => ?_)
+    exact Logs.bind' (Logs.silent (silent_takeArg x)) (pres_takeArg x) (fun v => Logs.silent (silent_pure _))
+
+/-- the constant nodes of a body footprint are those of its expressions (assignment targets are variables) -/
+theorem bodyFp_cst (fp : XExpr → List Loc) : ∀ body ρ, ρ ∈ bodyFp fp body → ρ.isCst = true →
+    ρ ∈ ((stmtExprs body).map (fun p => fp p.2)).flatten
+  | [], ρ, h, _ => by simp [bodyFp] at h
+  | .assign i e :: rest, ρ, h, hc => by
+    simp only [bodyFp, List.mem_append, List.mem_singleton] at h
+    simp only [stmtExprs, List.map_cons, List.flatten_cons, List.mem_append]
+    rcases h with (h | h) | h
+    · exact Or.inl h
+    · rw [h] at hc; simp [Loc.isCst] at hc
+    · exact Or.inr (bodyFp_cst fp rest ρ h hc)
+  | .doE e :: rest, ρ, h, hc => by
+    simp only [bodyFp, List.mem_append] at h
+    simp only [stmtExprs, List.map_cons, List.flatten_cons, List.mem_append]
+    rcases h with h | h
+    · exact Or.inl h
+    · exact Or.inr (bodyFp_cst fp rest ρ h hc)
+  | .ret e :: rest, ρ, h, hc => by
+    simp only [bodyFp, List.mem_append] at h
+    simp only [stmtExprs, List.map_cons, List.flatten_cons, List.mem_append]
+    rcases h with h | h
+    · exact Or.inl h
+    · exact Or.inr (bodyFp_cst fp rest ρ h hc)
+
+theorem logs_inCallee {α} {A B : List Loc} {m : XM α} (hm : Logs B m) (callee : Store) (hf : VarsFlagged callee)
+    (hsub : ∀ ρ ∈ B, ρ.isCst = true → ρ ∈ A) : Logs A (inCallee callee m) := by
+  intro s a s' hi h
+  simp only [inCallee] at h
+  cases hms : m { st := { callee with csts := s.st.csts }, log := [] } with
+  | ok p =>
+    obtain ⟨a0, s0⟩ := p
+    rw [hms] at h
+    simp only at h
+    cases h
+    have hi0 : FlagInv ({ st := { callee with csts := s.st.csts }, log := [] } : XS).st := ⟨hf, hi.2⟩
+    obtain ⟨l, e, hl⟩ := hm _ _ _ hi0 hms
+    refine ⟨s0.log.filter Loc.isCst, rfl, ?_⟩
+    intro ρ hρ
+    obtain ⟨h1, h2⟩ := List.mem_filter.mp hρ
+    simp only [List.append_nil] at e
+    rw [e] at h1
+    exact hsub ρ (hl ρ h1) h2
+  | err c x => rw [hms] at h; cases h
+  | haz x => rw [hms] at h; cases h
+  | unmodelled => rw [hms] at h; cases h
+
+theorem Logs.bind_silent {α β} {A : List Loc} {m : XM α} {f : α → XM β} (hs : ∀ s a s', m s = .ok (a, s') → s'.log = s.log)
+    (hp : Pres m) (hf : ∀ a, Logs A (f a)) : Logs A (XM.bind m f) := Logs.bind' (Logs.silent hs) hp hf
 
 end BlocV.LemmasX
